@@ -17,6 +17,16 @@ class G:
         return r.choice(U16B) if r.random() < 0.4 else r.randrange(65536)
 
     def u32(self):
+        v = self._u32()
+        pool = self.__dict__.setdefault("pool32", [])
+        if pool and self.r.random() < 0.12:
+            return list(self.r.choice(pool))      # relations between fields: the same value again
+        pool.append(v)
+        if len(pool) > 6:
+            pool.pop(0)
+        return v
+
+    def _u32(self):
         r = self.r
         x = r.random()
         if x < 0.25:   # leading zero bytes
@@ -56,6 +66,23 @@ class G:
 
     def utf8(self, n):
         """valid UTF-8 of exactly n bytes"""
+        r = self.r
+        k = r.random()
+        if n > 0 and k < 0.06:                       # nothing but white space
+            return [r.choice([0x20, 0x09, 0x0a, 0x0d]) for _ in range(n)]
+        if n > 0 and k < 0.12:                       # ends with U+0000 / a blank
+            return self._utf8(n - 1) + [r.choice([0x00, 0x00, 0x20, 0x0a])]
+        if n > 1 and k < 0.16:                       # starts with U+0000 / a blank, or has one inside
+            body = self._utf8(n - 1)
+            body.insert(r.choice([0, 0, r.randrange(n)]), r.choice([0x00, 0x20]))
+            try:
+                bytes(body).decode("utf-8")
+                return body
+            except UnicodeDecodeError:
+                return [0x00] + self._utf8(n - 1)
+        return self._utf8(n)
+
+    def _utf8(self, n):
         r = self.r
         out = []
         while len(out) < n:
@@ -139,7 +166,7 @@ class G:
         if nblocks is None:
             nblocks = r.choice([0, 1, 2, 31]) if r.random() < 0.5 else r.randrange(0, 32)
         if bad == "blocks":
-            nblocks = r.choice([32, 33, 40])
+            nblocks = r.choice([32, 33, 40, 255, 256, 257, 287, 288])
         for i in range(nblocks):
             s.append({"c": "add_rb", "v": self.rb_calls(hist, bad == "cumulative" and (i == 0 or r.random() < 0.2))})
         if bad == "cumulative" and nblocks == 0:
@@ -180,7 +207,7 @@ class G:
     def item_calls(self, hist=False, bad=False, vlen=None, typ=None):
         r = self.r
         if typ is None:
-            typ = r.choice([1, 2, 3, 4, 5, 6, 7, 8, 8, 8, 9, 255, r.randrange(1, 256)])
+            typ = r.choice([1, 2, 3, 4, 5, 6, 7, 8, 8, 8, 9, 10, 11, 12, 13, 14, 255, r.randrange(1, 256), r.randrange(1, 256)])
         calls = []
         if typ == 8:
             tot = vlen if vlen is not None else self.len_biased(254, over=bad)
@@ -206,6 +233,8 @@ class G:
                 calls.append({"c": "prefix", "v": self.bytes_(r.randrange(0, 6)), "mode": "borrowed"})
         if hist and r.random() < 0.3:
             calls.append({"c": "into_owned"})
+        if hist and r.random() < 0.15:
+            calls.insert(r.randrange(1, len(calls) + 1), {"c": "probe"})
         return calls
 
     def chunk(self, hist=False, bad=False, nitems=None, small=False):
@@ -216,7 +245,10 @@ class G:
         for i in range(nitems):
             vlen = r.randrange(0, 6) if small else None
             adds.append({"owned": r.random() < 0.4, "item": self.item_calls(hist, bad and i == 0, vlen)})
-        return {"ssrc": self.u32(), "via": r.choice(["builder", "new"]), "adds": adds}
+        ch = {"ssrc": self.u32(), "via": r.choice(["builder", "new"]), "adds": adds}
+        if hist and r.random() < 0.25:
+            ch["probes"] = sorted({r.randrange(len(adds) + 1) for _ in range(r.randrange(1, 3))})
+        return ch
 
     def sdes(self, hist=False, bad=None, nchunks=None, small=None):
         r = self.r
@@ -225,7 +257,7 @@ class G:
         if nchunks is None:
             nchunks = r.choice([0, 1, 2, 3]) if r.random() < 0.7 else r.randrange(0, 32)
         if bad == "chunks":
-            nchunks = r.choice([32, 33])
+            nchunks = r.choice([32, 33, 256, 257, 287])
         s = []
         for i in range(nchunks):
             s.append({"c": "add_chunk", "v": self.chunk(hist, bad == "item" and i == 0, None if nchunks < 8 else r.randrange(0, 3), small or nchunks > 8)})
@@ -244,7 +276,7 @@ class G:
         if nsrc is None:
             nsrc = r.choice([0, 1, 2, 31]) if r.random() < 0.6 else r.randrange(0, 32)
         if bad == "sources":
-            nsrc = r.choice([32, 33, 50])
+            nsrc = r.choice([32, 33, 50, 255, 256, 257, 287, 288, 512])
         for _ in range(nsrc):
             s.append({"c": "add_source", "v": self.u32()})
         if rlen is None:
@@ -339,19 +371,19 @@ class G:
             if hist and seqs:
                 seqs += [r.choice(seqs) for _ in range(r.randrange(0, 4))]   # re-adding is idempotent
                 r.shuffle(seqs)
-            return {"f": "nack", "adds": seqs}
+            return self._probed({"f": "nack", "adds": seqs}, hist)
         if f == "fir":
             n = r.randrange(0, 5) if not big else r.randrange(20, 200)
             adds = [[self.u32(), self.u8()] for _ in range(n)]
             if hist and adds:
                 for _ in range(r.randrange(0, 3)):
                     adds.insert(r.randrange(len(adds) + 1), [r.choice(adds)[0], self.u8()])  # re-add SSRC
-            return {"f": "fir", "adds": adds}
+            return self._probed({"f": "fir", "adds": adds}, hist)
         if f == "sli":
             n = r.randrange(0, 5) if not big else r.randrange(20, 200)
             def fld(mx):
                 return r.choice([0, 1, mx]) if r.random() < 0.5 else r.randrange(mx + 1)
-            return {"f": "sli", "adds": [[fld(0x1fff), fld(0x1fff), fld(0x3f)] for _ in range(n)]}
+            return self._probed({"f": "sli", "adds": [[fld(0x1fff), fld(0x1fff), fld(0x3f)] for _ in range(n)]}, hist)
         if f == "rpsi":
             calls = []
             n = r.randrange(0, 13) if not big else r.randrange(13, 301)
@@ -380,8 +412,18 @@ class G:
                 calls = [c_pt, c_data] if (pt or r.random() < 0.7) else [c_data]
             if n == 0 and bits == 0 and r.random() < 0.5:
                 calls = [c for c in calls if c["c"] != "data"]
+            if hist and r.random() < 0.3:
+                calls.insert(r.randrange(len(calls) + 1), {"c": "probe"})
             return {"f": "rpsi", "calls": calls}
         return {"f": "pli"}
+
+    def _probed(self, d, hist):
+        """observe the nested builder (size / write) after some of its adds: no effect on what it builds"""
+        r = self.r
+        if hist and r.random() < 0.35 and len(d["adds"]) < 400:
+            n = len(d["adds"])
+            d["probes"] = sorted({r.randrange(n + 1) for _ in range(r.randrange(1, 3))})
+        return d
 
     def fb(self, kind=None, f=None, hist=False, bad=None, big=False):
         r = self.r
@@ -490,9 +532,20 @@ class G:
                 k = "tfb" if calls[0]["fci"]["f"] == "nack" else "pfb"
             calls = [c for c in calls if c["c"] != "padding"] + [{"c": "padding", "v": r.choice([4, 8, 252])}]
             members[i] = {"kind": k, "calls": calls, "pb": k != "custom" and r.random() < 0.5}
+        if bad == "padding" and n >= 2 and r.random() < 0.3:
+            # a NESTED compound whose last member is padded, not in last position
+            i = r.randrange(0, n - 1)
+            k, calls = self.builder(r.choice(["bye", "rr", "app"]), small=True)
+            calls = [c for c in calls if c["c"] != "padding"] + [{"c": "padding", "v": r.choice([4, 8])}]
+            inner = [{"c": "new"}, {"c": "add_packet", "v": {"kind": "rr", "calls": [{"c": "new", "ssrc": self.u32()}], "pb": False}},
+                     {"c": "add_packet", "v": {"kind": k, "calls": calls, "pb": False}}]
+            members[i] = {"kind": "compound", "calls": inner, "pb": False}
         if bad == "member" and n == 0:
             members.append(self.member(0, True))
-        return "compound", [{"c": "new"}] + [{"c": "add_packet", "v": m} for m in members]
+        calls = [{"c": "new"}] + [{"c": "add_packet", "v": m} for m in members]
+        if len(calls) > 1 and r.random() < 0.25:
+            calls.insert(r.randrange(1, len(calls)), {"c": "probe"})
+        return "compound", calls
 
 
 # -------------------------------------------------------------------- sessions
